@@ -179,6 +179,10 @@ var funcSpecs = []funcSpec{
 	{rel: "", name: "GenerateX25519Identity", abstract: []string{"curve25519.X25519"}, opaque: map[string]string{"tapeτ": "τ"}, tape: true},
 	{rel: "plugin", name: "writeStanza", abstract: marshalAbstract, opaque: marshalOpaque, threaded: marshalThreaded},
 	{rel: "plugin", name: "writeStanzaWithBody", abstract: marshalAbstract, opaque: marshalOpaque, threaded: marshalThreaded},
+	{rel: "", name: "aeadEncrypt", abstract: []string{"chacha20poly1305.New"}, opaque: map[string]string{"cipher.AEAD": "α"}},
+	{rel: "", name: "aeadDecrypt", abstract: []string{"chacha20poly1305.New"}, opaque: map[string]string{"cipher.AEAD": "α"}},
+	{rel: "agessh", name: "aeadEncrypt", abstract: []string{"chacha20poly1305.New"}, opaque: map[string]string{"cipher.AEAD": "α"}},
+	{rel: "agessh", name: "aeadDecrypt", abstract: []string{"chacha20poly1305.New"}, opaque: map[string]string{"cipher.AEAD": "α"}},
 	{rel: "cmd/age", name: "(*LazyScryptIdentity).Unwrap", abstract: []string{"errors.Is", "format.DecodeString", "scrypt.Key", "age.aeadDecrypt"}},
 	{rel: "cmd/age", name: "(*EncryptedIdentity).Unwrap", abstract: []string{"main.decrypt", "errors.Is"},
 		opaque: map[string]string{"age.Identity": "ι"}, threaded: map[string][]string{"main.decrypt": {"i"}}},
@@ -1259,6 +1263,27 @@ func (c *fctx) call(x *ast.CallExpr) string {
 					if lt, _ := leanTypeOf(sn.Recv()); lt == "α" {
 						c.useAbstractName("aead_Overhead", "(aead_Overhead : α → Go.M Int)")
 						return "(← aead_Overhead " + c.expr(sel.X) + ")"
+					}
+				}
+			}
+			// cipher.AEAD.Seal(nil, nonce, pt, aad) / Open(nil, nonce, ct, aad) as expressions: nothing to append to,
+			// the result is a fresh slice (on failure Go's AEADs return nil together with the error)
+			if sel, ok := ast.Unparen(x.Fun).(*ast.SelectorExpr); ok {
+				if sn := c.info().Selections[sel]; sn != nil && sn.Kind() == types.MethodVal && (o.Name() == "Seal" || o.Name() == "Open") && len(x.Args) == 4 && c.isNil(x.Args[0]) {
+					if lt, _ := leanTypeOf(sn.Recv()); lt == "α" {
+						val := func(a ast.Expr) string {
+							if c.isNil(a) {
+								return "[]"
+							}
+							return c.exprAs(a, types.NewSlice(types.Typ[types.Byte]))
+						}
+						args := c.expr(sel.X) + " " + val(x.Args[1]) + " " + val(x.Args[2]) + " " + val(x.Args[3])
+						if o.Name() == "Seal" {
+							c.useAbstractName("aead_Seal", "(aead_Seal : α → (List UInt8) → (List UInt8) → (List UInt8) → Go.M (List UInt8))")
+							return "(← aead_Seal " + args + ")"
+						}
+						c.useAbstractName("aead_Open", "(aead_Open : α → (List UInt8) → (List UInt8) → (List UInt8) → Go.M ((List UInt8) × (Option Go.Err)))")
+						return "(Go.nilOnErr (← aead_Open " + args + "))"
 					}
 				}
 			}
